@@ -202,6 +202,7 @@ func loadProg(repo string, trustedDir string) (*Prog, error) {
 		}
 		P.SpecFiles = append(P.SpecFiles, m)
 	}
+	computeTransparentExt(P)
 	if err := P.Spec.resolveLikes(); err != nil {
 		return nil, err
 	}
@@ -241,6 +242,7 @@ func (sf *SpecFile) resolveLikes() error {
 				c.ModifiesAll = true
 			}
 			c.Uses = append(append([]SCall(nil), t.Uses...), c.Uses...)
+			c.DefaultInv = append(append([]Clause(nil), t.DefaultInv...), c.DefaultInv...)
 		}
 		done[c.Key] = true
 		return nil
@@ -278,6 +280,7 @@ func (sf *SpecFile) merge(sub *SpecFile, prefix string) error {
 		if _, dup := sf.Funs[n]; dup {
 			return fmt.Errorf("duplicate spec fun %s", n)
 		}
+		sub.Funs[n].Pkg = strings.TrimSuffix(prefix, ".")
 		sf.Funs[n] = sub.Funs[n]
 		sf.FunOrder = append(sf.FunOrder, n)
 	}
@@ -342,6 +345,23 @@ func (P *Prog) resolveTypeExpr(e ast.Expr, pkg *types.Package) (types.Type, erro
 		return P.resolveTypeExpr(e.X, pkg)
 	case *ast.InterfaceType:
 		return types.NewInterfaceType(nil, nil), nil
+	case *ast.StructType:
+		if e.Fields == nil || len(e.Fields.List) == 0 {
+			return types.NewStruct(nil, nil), nil
+		}
+		return nil, fmt.Errorf("struct types with fields are not supported in contracts")
+	case *ast.ChanType:
+		t, err := P.resolveTypeExpr(e.Value, pkg)
+		if err != nil {
+			return nil, err
+		}
+		dir := types.SendRecv
+		if e.Dir == ast.RECV {
+			dir = types.RecvOnly
+		} else if e.Dir == ast.SEND {
+			dir = types.SendOnly
+		}
+		return types.NewChan(dir, t), nil
 	case *ast.SelectorExpr:
 		id, ok := e.X.(*ast.Ident)
 		if !ok {
